@@ -27,9 +27,10 @@ func init() {
 // spxProps says which harnesses each property's SPX family explores.
 var spxProps = map[string][]string{
 	"C01": {"S1", "S2", "S9"},
+	"C09": {"S14", "S9"},
 	"C06": {"S4", "S10"},
 	"C10": {"S3", "S4", "S13"},
-	"C17": {"S1", "S2", "S3", "S4", "S9", "S10", "S13"},
+	"C17": {"S1", "S2", "S3", "S4", "S9", "S10", "S13", "S14"},
 	"C18": {"S1", "S6"},
 	"C02": {"S5", "S8"},
 	"C07": {"S8"},
@@ -207,7 +208,12 @@ func spxServerRules(x *spxInst, sc *spxScenario, prop string, add func(rule, sha
 	}
 
 	switch prop {
-	case "C01":
+	case "C01", "C09":
+		if prop == "C09" {
+			for _, g := range h.GoAways {
+				add("stream-error-ended-the-connection", "", fmt.Sprintf("GOAWAY(%s) although only stream-level offences were committed", peer.CodeName(g.Code)))
+			}
+		}
 		seen := map[uint32]int{}
 		for _, cl := range h.Calls {
 			seen[cl.Stream]++
@@ -222,7 +228,19 @@ func spxServerRules(x *spxInst, sc *spxScenario, prop string, add func(rule, sha
 				add("request-not-intact", "", fmt.Sprintf("stream %d: handler saw %s %s body %q", cl.Stream, cl.Req.Method, cl.Req.URI, cl.Req.Body))
 			}
 		}
-		if short == "S9" {
+		if short == "S14" {
+			if seen[5] != 0 {
+				add("malformed-request-dispatched", "", "the request with an upper-case field name reached the handler")
+			}
+			for _, id := range []uint32{3, 7} {
+				if seen[id] != 1 {
+					add("neighbour-not-dispatched", "", fmt.Sprintf("well-formed request on stream %d dispatched %d times next to a refused one (dispatched: %v)", id, seen[id], h.DispatchedIDs()))
+				}
+			}
+			if so := h.Streams[5]; so == nil || len(so.Rst) == 0 {
+				add("malformed-request-not-refused", "", "no RST_STREAM on stream 5")
+			}
+		} else if short == "S9" {
 			// one slot: a request is either dispatched or refused, never both, never neither
 			for _, id := range []uint32{3, 5, 7} {
 				refused := false
